@@ -17,8 +17,15 @@
      spec_wire / spec_answers    the same specification from the terminal's side: a report
                      CSI .. R is the reply from the moment the query is WRITTEN (not: from the
                      moment the flag is armed); the answers the callers must receive
-     sched_ok prog   the schedules that can happen when the prologue runs in the order prog *)
-From Vx Require Import base.Prelude gen.GenInput model.Parser model.Mouse model.Input proofs.InputProofs.
+     sched_ok prog   the schedules that can happen when the prologue runs in the order prog
+     clip_answer / spec_clips    the clipboard hand-off from the terminal's side: the text an
+                     OSC 52 report carries (fields of the payload, split right to left), and what
+                     the callers of ClipboardPop must receive: the reports that arrive while they
+                     wait; a report nobody waits for is forgotten, never kept for a later call
+     hcase_violation the property predicate evaluated on every observation of the differential
+                     stream "handle" (model/InputCheck.v); model_obs: the observation the model
+                     predicts *)
+From Vx Require Import base.Prelude gen.GenInput model.Parser model.Mouse model.Input model.InputCheck proofs.InputProofs.
 
 (* Every sequence the parser can deliver is well formed (no empty CSI parameter), for every
    byte stream and every segmentation of it by silences. *)
@@ -192,6 +199,45 @@ Theorem C03_solicited_cursor_reply_consumed_and_answered : forall dec b64 l s,
 Proof. exact solicited_cursor_reply. Qed.
 Print Assumptions C03_solicited_cursor_reply_consumed_and_answered.
 
+(* The clipboard hand-off, for EVERY interleaving of delivered sequences with calls to
+   ClipboardPop (started / answered / context expired) and EVERY state, without any hypothesis on
+   the sequences or on the queue: the callers receive exactly the texts of the OSC 52 reports
+   that arrive while they are waiting, in order.  In particular an unsolicited, repeated or late
+   report (nobody waiting) leaves nothing behind: the next call is answered by the report the
+   terminal sends to THAT call (the unbuffered chClipboard is a rendezvous). *)
+Theorem C03_clipboard_answers_exact : forall dec b64 l s s' es,
+  run_steps dec b64 s l = Ok s' es -> clips_of es = spec_clips b64 (w_clip s) l.
+Proof. exact run_steps_clips. Qed.
+Print Assumptions C03_clipboard_answers_exact.
+
+(* per sequence: a report hands its text to the waiting caller (who then stops waiting) or is
+   dropped; no other sequence touches the hand-off *)
+Theorem C03_clipboard_report_answers_only_the_waiting_call : forall dec b64 s it s' es,
+  handle dec b64 s it = Ok s' es ->
+  (clips_of es, w_clip s') =
+  match clip_answer b64 it with
+  | Some b => (if w_clip s then [b] else [], false)
+  | None => ([], w_clip s)
+  end.
+Proof. intros dec b64 s it s' es E. exact (handle_clips dec b64 s it s' es E). Qed.
+Print Assumptions C03_clipboard_report_answers_only_the_waiting_call.
+
+(* The property predicate of the differential stream "handle" (no crash on deliverable
+   sequences, no wedge, user events = spec_wire, cursor answers = spec_answers, clipboard answers
+   = spec_clips) holds on the observation the MODEL predicts, for every case input whose schedule
+   can happen and every start state a snapshot describes: a case on which implementation and
+   model agree is a case on which the property holds, and the predicate raises no false alarm on
+   code the model describes. *)
+Theorem C03_handle_predicate_sound : forall bits bs p rq rs sz uc sd lc lf lb steps kt bt obs,
+  sched_ok cursor_prog rq [] steps = true ->
+  let inp := (bits, None, bs, (p, rq, rs, sz, uc, sd, lc, lf, lb)) in
+  hcase_violation (inp, steps, (kt, bt), model_obs (hcase_model (inp, steps, (kt, bt), obs))) = false.
+Proof.
+  intros bits bs p rq rs sz uc sd lc lf lb steps kt bt obs H.
+  exact (handle_predicate_sound bits bs (p, rq, rs, sz, uc, sd, lc, lf, lb) steps kt bt obs H).
+Qed.
+Print Assumptions C03_handle_predicate_sound.
+
 (* The start-up loop of New learns exactly the capabilities whose events precede the DA1 reply
    (kitty keyboard unless disabled), stops at it and leaves everything after it in the queue. *)
 Theorem C03_startup_collects_exactly : forall dk evs su,
@@ -316,3 +362,21 @@ Example C03_example_order_matters : forall dec b64,
   spec_answers false false fast_reply_schedule = [(5, 7)] /\
   exists s', run_steps dec b64 vx0 fast_reply_schedule = Ok s' [Ev (EKey (dec (ICsi [] [[5]; [7]] 82)))].
 Proof. exact order_matters. Qed.
+
+(* the clipboard hand-off on a concrete schedule: an unsolicited report ("old"), a call answered
+   by the report sent to it ("new"), a repeated report, a call whose context expires, its late
+   answer, and a third call answered by its own report: the callers get "new" and "3rd", never
+   "old" or "late"; the schedule meets the hypothesis of C03_handle_predicate_sound *)
+Definition ex_b64 (s : list Z) : option (list Z) :=
+  match s with [a; b] => Some [a; b; 33] | _ => None end.
+Definition ex_osc52 (a b : Z) : item := IOsc [53; 50; 59; 99; 59; a; b].
+Definition ex_clip_sched : list step :=
+  [SItem (ex_osc52 111 108); SApp AClipWait; SItem (IPrint [97]); SItem (ex_osc52 110 101);
+   SItem (ex_osc52 110 101); SApp AClipWait; SApp AClipLeave; SItem (ex_osc52 108 97);
+   SItem (IOsc [53; 50; 59; 99]); SApp AClipWait; SItem (ex_osc52 51 114); SApp AClipLeave].
+Example C03_example_clipboard :
+  sched_ok cursor_prog false [] ex_clip_sched = true /\
+  spec_clips ex_b64 false ex_clip_sched = [[110; 101; 33]; [51; 114; 33]] /\
+  exists s', run_steps ex_dec ex_b64 vx0 ex_clip_sched =
+    Ok s' [Ev (EKey (mkIKey [97] 97 0 0 0 0)); ToClip [110; 101; 33]; ToClip [51; 114; 33]].
+Proof. split; [vm_compute; reflexivity|]. split; [vm_compute; reflexivity|]. eexists. vm_compute. reflexivity. Qed.
